@@ -2,6 +2,7 @@
 import importlib
 
 GROUPS = {
+    "C06": "timelimiter",
     "C19": "chaos",
     "C17": "fallback",
     "C11": "coalesce",
